@@ -332,6 +332,7 @@ def run(ctx):
         body, _, cxxv = m[3:].rpartition("|")
         if m.startswith("OK|") and body != ms or not m.startswith("OK|"):
             ctx.broken.append(("correspondence", "Enum.derive", "decl=%r impl=%s model=%s" % (e[0], ms, m)))
+            model_mismatch.append(e)
     ctx.sample({"enum": enums[1][0], "impl_values": impl_derive(sast, enums[1][0])[0] if impl_enum(declast, enums[1][0]).startswith("OK") else None})
     ctx.sample({"expr": exprs[0], "impl": impl_expr(declast, exprs[0])})
 
@@ -345,6 +346,8 @@ def run(ctx):
         if re.search(r"\d\.\d|\de\d|\w\(|0x|08", e[0]):
             continue      # not integral constant expressions in C++ (out of scope)
         pool.append(e)
+    # the enumerations on which implementation and model disagree go first: the compiler decides which of them is wrong
+    pool = [e for e in model_mismatch if not re.search(r"\d\.\d|\de\d|\w\(|0x|08", e[0])][:12] + pool
     # fixed regression inputs: the refutation witnesses
     pool += [("enum W0 { W0a = 1 - -1, W0b };", ["W0a", "W0b"]), ("enum W1 { W1a = 010, W1b };", ["W1a", "W1b"]),
              ("enum W2 { W2a = 3, W2b = 2*-W2a, W2c };", ["W2a", "W2b", "W2c"]), ("enum W3 { W3a = - -2 };", ["W3a"]),
